@@ -576,6 +576,8 @@ func init() {
 		"vobserve":         primObserve,
 		"vauxMap":          primAuxMap,
 		"vauxCell":         primAuxCell,
+		"vgetPriv":         primGetPriv,
+		"vsetPriv":         primSetPriv,
 		"vsymbolic":        func(m *M, fn *ssa.Function, a []Value) Value { return smt.True },
 		"vfail":            primFail,
 		"vclockFreeze": func(m *M, fn *ssa.Function, a []Value) Value {
@@ -765,6 +767,44 @@ func primAuxCell(m *M, fn *ssa.Function, a []Value) Value {
 	id := m.st.alloc(IfaceV{}, nil)
 	m.st.setAux(k, id)
 	return PtrV{Obj: id}
+}
+
+// vgetPriv / vsetPriv: read / write a (possibly unexported, possibly foreign-package) field of the struct a pointer
+// points to, so that a harness can construct an arbitrary pre-state of a dependency's type directly (inductive steps).
+// Natively the same is done with reflect + unsafe.
+func (m *M) privFieldPtr(obj Value, name string) (PtrV, types.Type) {
+	iv, ok := obj.(IfaceV)
+	if !ok || iv.T == nil {
+		abortf("vgetPriv/vsetPriv: nil or non-interface owner")
+	}
+	pt, ok := under(iv.T).(*types.Pointer)
+	if !ok {
+		abortf("vgetPriv/vsetPriv: owner is not a pointer (%s)", iv.T)
+	}
+	idx, fv := structFieldIndex(pt.Elem(), name)
+	if idx < 0 {
+		abortf("vgetPriv/vsetPriv: %s has no field %s", pt.Elem(), name)
+	}
+	p := iv.V.(PtrV)
+	if p.Obj == 0 {
+		panic(execPanic{msg: "nil pointer dereference"})
+	}
+	return PtrV{Obj: p.Obj, Path: pathAppend(p.Path, idx)}, fv.Type()
+}
+
+func primGetPriv(m *M, fn *ssa.Function, a []Value) Value {
+	p, t := m.privFieldPtr(a[0], constStr(a[1]))
+	return IfaceV{T: t, V: m.st.load(p)}
+}
+
+func primSetPriv(m *M, fn *ssa.Function, a []Value) Value {
+	p, t := m.privFieldPtr(a[0], constStr(a[1]))
+	iv, ok := a[2].(IfaceV)
+	if !ok || iv.T == nil || !types.AssignableTo(iv.T, t) {
+		abortf("vsetPriv: value not assignable to field type %s", t)
+	}
+	m.st.store(p, iv.V)
+	return nil
 }
 
 func (m *M) auxKeyOf(owner Value, name string) auxKey {
